@@ -25,6 +25,9 @@ class Caps:
         self.has_end = flags["EOF_SUPPORT"]
         self.has_free = flags["DYNAMIC_MEMORY"]
         self.zero_len = flags["ZERO_LEN_INPUT_SUPPORT"]
+        # False for programs that read strings by index: an index beyond the current length legitimately shows what
+        # the storage held before start(), so a restarted session is then given a zeroed struct like a fresh one
+        self.poison_restart = True
 
 
 def canonical_ops(n, caps, fill=0, sid=0):
@@ -146,7 +149,10 @@ def scheduled_ops(rng, n, caps, cuts, faults, sid=0, fill=0, final_end=True):
                 ops.append("OP %d FREE" % sid)
                 ops.append("OP %d CHECK 1" % sid)
             fired["restart"] += 1
-            sub, f2 = scheduled_ops(rng, n, caps, random_cuts(rng, n), faults - {"restart"}, sid, fill, final_end)
+            # the restarted struct is not a pristine one: scalars are re-zeroed by the caller, string storage, counters and
+            # heap pointers hold garbage (poison 170), so whatever start() forgets to set up is visible in the new session
+            sub, f2 = scheduled_ops(rng, n, caps, random_cuts(rng, n), faults - {"restart"}, sid,
+                                     fill if (fill > 0 or not caps.poison_restart) else 170, final_end)
             for k in f2:
                 fired[k] += f2[k]
             return ops + sub, fired
